@@ -29,7 +29,7 @@ REQUIRED_CLAUSES = ["root", "count", "reaches_root", "cost_recurrence", "edges_f
 
 def plan(tier, seed):
     if tier == "quick":
-        return [{"n": 8, "maxit": 120, "timeout_s": 1800} for _ in range(16)]
+        return [{"n": 16, "maxit": 120, "timeout_s": 1800} for _ in range(16)]
     return [{"n": 320, "maxit": 400, "timeout_s": 14400} for _ in range(16)]
 
 
